@@ -195,6 +195,7 @@ var luaOps = map[string]string{
 	"modf": "math.modf(%s)", "mtype": "math.type(%s)", "tonumber": "tonumber(%s)", "tostring": "tostring(%s)",
 	"fdivint": "%s // 1", "concat0": "%s .. ''",
 	"keytype": "(function(k) local t = {} t[k] = true return math.type((next(t))) end)(%s)",
+	"randok":  "(pcall(math.random, %s))",
 }
 
 type env struct {
@@ -404,7 +405,16 @@ func strEngine(in *bufio.Scanner, out *bufio.Writer) {
 			ti = fmtInt(n)
 		}
 		br := e.runChunk("bor0", "local s = ...; return s | 0", []rt.Value{sv}, true)
-		fmt.Fprintf(out, "%s D:%s T:%s L:%s A:%s I:%s O:%s\n", id, d, tr, lr, ar, ti, br)
+		errE := func(r string) string {
+			if strings.HasPrefix(r, "E") {
+				return "E"
+			}
+			return r
+		}
+		mf := errE(e.runChunk("smodf", "local s = ...; return math.modf(s)", []rt.Value{sv}, true))
+		fl := errE(e.runChunk("sfloor", "local s = ...; return math.floor(s)", []rt.Value{sv}, true))
+		ab := errE(e.runChunk("sabs", "local s = ...; return math.abs(s)", []rt.Value{sv}, true))
+		fmt.Fprintf(out, "%s D:%s T:%s L:%s A:%s I:%s O:%s MF:%s FL:%s AB:%s\n", id, d, tr, lr, ar, ti, br, mf, fl, ab)
 	}
 }
 
